@@ -28,6 +28,7 @@ type ReplayFile struct {
 	Msg      string       `json:"msg"`
 	Tape     []*TapeEntry `json:"tape"`
 	Stubs    []StubSpec   `json:"stubs,omitempty"`
+	Aux      []AuxFile    `json:"aux,omitempty"`
 	Outcome  string       `json:"native_outcome,omitempty"`
 }
 
@@ -67,7 +68,7 @@ func loadKnown(verif string) []knownFinding {
 			case "harness":
 				kf.Harness = kv[1]
 			case "label":
-				kf.Label = kv[1]
+				kf.Label = strings.ReplaceAll(kv[1], "%20", " ")
 			}
 		}
 		out = append(out, kf)
@@ -105,9 +106,19 @@ func buildReplayBinary(repo string, spec LoadSpec, stubs []StubSpec, harnessName
 		if i := strings.LastIndex(pat, "/"); i >= 0 {
 			pat = pat[i+1:]
 		}
+		sdir := dir
+		spkgName := pkgName
+		if ss.Dir != "" && ss.Dir != spec.PkgDir {
+			sdir = filepath.Join(repo, ss.Dir)
+			spkgName = ""
+		}
+		repl := ss.Stub
+		if ss.As != "" {
+			repl = ss.As
+		}
 		// same-package function: drop the package qualifier
-		if strings.HasPrefix(pat, pkgName+".") {
-			pat = strings.TrimPrefix(pat, pkgName+".")
+		if spkgName != "" && strings.HasPrefix(pat, spkgName+".") {
+			pat = strings.TrimPrefix(pat, spkgName+".")
 		}
 		re := regexp.MustCompile(`(^|[^\w.])` + regexp.QuoteMeta(pat) + `\(`)
 		var reM *regexp.Regexp
@@ -115,7 +126,7 @@ func buildReplayBinary(repo string, spec LoadSpec, stubs []StubSpec, harnessName
 			reM = regexp.MustCompile(`([A-Za-z_][\w.]*)\.` + regexp.QuoteMeta(ss.Method) + `\(`)
 		}
 		for _, f := range ss.Files {
-			p := filepath.Join(dir, f)
+			p := filepath.Join(sdir, f)
 			src, ok := ov[p]
 			if !ok {
 				src, err = os.ReadFile(p)
@@ -129,10 +140,10 @@ func buildReplayBinary(repo string, spec LoadSpec, stubs []StubSpec, harnessName
 					continue
 				}
 				if reM != nil {
-					lines[i] = reM.ReplaceAllString(l, ss.Stub+"(${1}, ")
+					lines[i] = reM.ReplaceAllString(l, repl+"(${1}, ")
 					continue
 				}
-				lines[i] = re.ReplaceAllString(l, "${1}"+ss.Stub+"(")
+				lines[i] = re.ReplaceAllString(l, "${1}"+repl+"(")
 			}
 			out := strings.Join(lines, "\n")
 			if reM == nil && strings.Contains(pat, ".") {
@@ -271,7 +282,7 @@ func (rep *CheckReport) replayAll(o *checkOpts) {
 		perKey := map[string]bool{}
 		sort.SliceStable(vs, func(i, j int) bool { return vs[i].Harness+vs[i].Label < vs[j].Harness+vs[j].Label })
 		for i, v := range vs {
-			rf := &ReplayFile{Property: rep.Prop, Harness: v.Harness, PkgDir: g.spec.PkgDir, Kind: v.Kind, Label: v.Label, Pos: v.Pos, Msg: v.Msg, Tape: v.Tape, Stubs: g.P.stubSpec}
+			rf := &ReplayFile{Property: rep.Prop, Harness: v.Harness, PkgDir: g.spec.PkgDir, Kind: v.Kind, Label: v.Label, Pos: v.Pos, Msg: v.Msg, Tape: v.Tape, Stubs: g.P.stubSpec, Aux: g.spec.Aux}
 			for _, f := range g.spec.Files {
 				rf.Files = append(rf.Files, f)
 			}
@@ -353,7 +364,7 @@ func cmdReplay(args []string) int {
 			names = append(names, string(m[1]))
 		}
 	}
-	bin, err := buildReplayBinary(repo, LoadSpec{RepoDir: repo, PkgDir: rf.PkgDir, Files: rf.Files}, rf.Stubs, names, tmp)
+	bin, err := buildReplayBinary(repo, LoadSpec{RepoDir: repo, PkgDir: rf.PkgDir, Files: rf.Files, Aux: rf.Aux}, rf.Stubs, names, tmp)
 	if err != nil {
 		fmt.Fprintln(os.Stderr, err)
 		return 2
